@@ -17,7 +17,7 @@ from harness import builder as B
 from harness.corpus import _report
 from hl7apy.core import Message, Segment
 from hl7apy.parser import parse_message
-from hl7apy.exceptions import MessageProfileNotFound, LegacyMessageProfile, MaxChildLimitReached, ChildNotValid
+from hl7apy.exceptions import MessageProfileNotFound, LegacyMessageProfile, MaxChildLimitReached, ChildNotValid, HL7apyException
 
 import random as _random
 STRUCTS = [('2.5', 'ADT_A01'), ('2.5', 'OML_O33'), ('2.5', 'RSP_K21'), ('2.3', 'ADT_A01'), ('2.4', 'ORM_O01'), ('2.6', 'ADT_A04'),
@@ -277,6 +277,18 @@ def check(si, edit, t, path, trace=None):
         ea, eb = _report(a)[1], _report(b)[1]
         ok = ok and not any(('%s.%s' % (seg, fld)) in e and e.startswith('Datatype') for e in ea + eb)
         note.append('after assignment: %r / %r ; datatype errors: %r / %r' % (da, db, [e for e in ea if e.startswith('Datatype')], [e for e in eb if e.startswith('Datatype')]))
+        # the same child written with a datatype OBJECT of the type each side declares (ElementList.set builds the child itself)
+        from hl7apy.factories import datatype_factory
+        for msg_, dt_, tag in ((a, new_dt, 'profile'), (b, old_dt, 'standard')):
+            try:
+                setattr(getattr(msg_, seg.lower()), fld.lower(), datatype_factory(dt_, '34', version=v, validation_level=2))
+                got_ = getattr(getattr(msg_, seg.lower()), fld.lower())
+                dd, tx = got_[0].datatype, got_[0].to_er7()
+            except HL7apyException as e:
+                dd, tx = type(e).__name__, str(e)
+            errs = [e for e in _report(msg_)[1] if e.startswith('Datatype') and ('%s.%s' % (seg, fld)) in e]
+            ok = ok and dd == dt_ and tx == '34' and not errs
+            note.append('%s side, %s object assigned: child datatype/text %r %r (want %r, \'34\') ; datatype errors %r' % (tag, dt_, dd, tx, dt_, errs))
     if trace is not None:
         trace.append('%s %s edit=%s t=%d about %r, creation path %s\n  %s' % (v, m, kind, t, info, PATHS[path], '\n  '.join(note)))
     return ok
